@@ -441,8 +441,12 @@ func c12Siblings(r *an.Run, m *runModel) {
 		}
 		good := len(fnodes) == 1 && len(procs) == 1
 		if good {
-			a, b := siteIn(f, fnodes[0]), siteIn(f, procs[0])
-			good = a != nil && b != nil && an.InstrDominates(a, b)
+			if fnodes[0].Parent() == procs[0].Parent() {
+				good = an.InstrDominates(fnodes[0], procs[0])
+			} else {
+				a, b := siteIn(f, fnodes[0]), siteIn(f, procs[0])
+				good = a != nil && b != nil && an.InstrDominates(a, b)
+			}
 		}
 		if good {
 			// the bytes processed are the printer's buffer
